@@ -404,7 +404,7 @@ def gen_twin(rng, N, CK):
         nf = rng.choice([1, 1, 2, 2, 3])
         avail = ["lit_s", "lit_b", "lit_n", "empty"]
         if views:
-            avail += ["expr", "expr", "counted", "disp", "dbg", "override", "shorthand_dbg"]
+            avail += ["expr", "expr", "counted", "disp", "dbg", "override", "shorthand_dbg", "dotted"]
         if any(b.disp_exp for b in binds):
             avail += ["shorthand_disp", "shorthand_disp"]
         for j in range(nf):
@@ -426,6 +426,16 @@ def gen_twin(rng, N, CK):
                 a = rng.choice(views)
                 custom.append((f"{cn} = ?Pt {{ x: {a.view}, y: 1 }}",
                                f'f_dbg("{cn}", format!("{{:?}}", Pt {{ x: {a.ival}, y: 1 }}))', cn))
+            elif form == "dotted":
+                # a dotted custom name whose LAST (or first) segment is a parameter's name: another
+                # field altogether, the parameter keeps its own automatic field
+                cands = [b for b in views if b.name != "self"]
+                if not cands:
+                    continue
+                t = rng.choice(cands)
+                a = rng.choice(views)
+                dn = rng.choice([f"req{j}.{t.name}", f"a{j}.b.{t.name}", f"{t.name}.len{j}", f"{t.name}.x{j}.{t.name}"])
+                custom.append((f"{dn} = {a.view} + 1000", f'f_int("{dn}", {a.ival} + 1000)', dn))
             elif form == "lit_s":
                 custom.append((f'{cn} = "a b\\"c"', f'f_str("{cn}", "a b\\"c")', cn))
             elif form == "lit_b":
